@@ -13,6 +13,7 @@ import Driver.Rm
 import Driver.Regex
 import Driver.Lock
 import Driver.Cfg
+import Driver.Archive
 
 def dispatch (line : String) : String :=
   match (line.trimAscii.toString.splitOn " ").filter (· ≠ "") with
@@ -36,6 +37,7 @@ def dispatch (line : String) : String :=
   | "excl" :: rest => Driver.Regex.handle rest
   | "lockev" :: rest => Driver.Lock.handle rest
   | "cfg" :: rest => Driver.Cfg.handle rest
+  | "arch" :: rest => Driver.Archive.handle rest
   | _ => "bad-op"
 
 partial def loop (hin hout : IO.FS.Stream) : IO Unit := do
